@@ -2,21 +2,37 @@
 
 package main
 
-// Extractor for C03 (tie 1): what handleNewTCPConn does with the client connection, read off the
-// syntax tree of conns.go in the scratch copy — every method it invokes on `clientConn` and on the
-// wrapped connection, every function it hands them to, and every alias it creates. Written as
-// CJ/Gen/ConnCalls.lean; `CJ.Props.C03.conn_calls_ok` is stated about it (no Write, no Close).
+// Extractor for C03 (tie 1).
+//
+// (1) What handleNewTCPConn and handleNewConn do with the client connection, read off the syntax tree
+// of conns.go in the scratch copy: EVERY occurrence of the connection variable (found by the type of
+// the parameter, not by its name) and of every variable it is copied to is classified — method call
+// (with the method), argument of a call (function and argument position), or "other use" (type
+// assertion, type switch, address-of, composite literal, closure capture, comparison, return, …) — and
+// likewise for the connection the transports hand back (second result of WrapConnection). Written as
+// CJ/Gen/ConnCalls.lean; `CJ.Props.C03.conn_calls_ok` / `new_conn_calls_ok` are stated about it.
+//
+// (2) The length constants the transport models use (min tag length, obfs4 handshake bounds,
+// identifier length), from the running code: CJ/Gen/WrapConsts.lean.
 
 import (
+	"bytes"
+	"errors"
 	"fmt"
 	"go/ast"
 	"go/parser"
 	"go/token"
+	"net"
 	"os"
 	"path/filepath"
 	"sort"
 	"strings"
 	"testing"
+
+	"github.com/refraction-networking/conjure/pkg/transports"
+	"github.com/refraction-networking/conjure/pkg/transports/wrapping/min"
+	"github.com/refraction-networking/conjure/pkg/transports/wrapping/obfs4"
+	"github.com/refraction-networking/obfs4/common/ntor"
 )
 
 func c03Expr(e ast.Expr) string {
@@ -44,72 +60,387 @@ func c03LeanList(name string, set map[string]bool) string {
 	return fmt.Sprintf("def %s : List String := [%s]\n", name, strings.Join(l, ", "))
 }
 
+// c03Facts: what one function does with a family of tracked variables
+type c03Facts struct {
+	methods  map[string]map[string]bool // kind -> methods invoked (not deferred)
+	deferred map[string]map[string]bool // kind -> "Method@<index of the top-level statement>"
+	passed   map[string]map[string]bool // kind -> "fn#argIndex"
+	other    map[string]bool            // every other use, aliases, goroutines, defers of other things
+}
+
+func newC03Facts(kinds ...string) *c03Facts {
+	f := &c03Facts{methods: map[string]map[string]bool{}, deferred: map[string]map[string]bool{}, passed: map[string]map[string]bool{}, other: map[string]bool{}}
+	for _, k := range kinds {
+		f.methods[k], f.deferred[k], f.passed[k] = map[string]bool{}, map[string]bool{}, map[string]bool{}
+	}
+	return f
+}
+
+// c03Strip removes what does not change which object an expression denotes
+func c03Strip(e ast.Expr) ast.Expr {
+	for {
+		switch x := e.(type) {
+		case *ast.ParenExpr:
+			e = x.X
+		case *ast.TypeAssertExpr:
+			e = x.X
+		case *ast.StarExpr:
+			e = x.X
+		case *ast.UnaryExpr:
+			e = x.X
+		default:
+			return e
+		}
+	}
+}
+
+var c03Conversions = map[string]bool{"int": true, "uintptr": true, "uint": true, "int32": true, "int64": true, "uint32": true, "uint64": true}
+
+// c03Analyse classifies every occurrence of the tracked variables in fn. `tracked` maps a variable
+// name to its kind; `derive` adds variables defined from a call on a tracked variable
+// (`fd, err := clientConn.File()` -> kind "fd") or from a call of a named method
+// (`_, wrappedConn, err := t.WrapConnection(…)` -> result 1 is "wrapped").
+func c03Analyse(fn *ast.FuncDecl, tracked map[string]string, facts *c03Facts) {
+	// ---- which variables denote the tracked objects: copies, to a fixpoint
+	for changed := true; changed; {
+		changed = false
+		add := func(lhs ast.Expr, kind, why string, alias bool) {
+			id, ok := lhs.(*ast.Ident)
+			if !ok {
+				if alias {
+					facts.other["stored-in:"+c03Expr(lhs)+" ("+why+")"] = true
+				}
+				return
+			}
+			if id.Name == "_" {
+				return
+			}
+			if _, known := tracked[id.Name]; !known {
+				tracked[id.Name] = kind
+				changed = true
+			}
+		}
+		pair := func(lhs, rhs ast.Expr) {
+			id, ok := c03Strip(rhs).(*ast.Ident)
+			if !ok {
+				return
+			}
+			k, ok := tracked[id.Name]
+			if !ok {
+				return
+			}
+			lid, isID := lhs.(*ast.Ident)
+			if isID && (lid.Name == "_" || lid.Name == id.Name) {
+				return
+			}
+			// a copy of the wrapped connection into another plain variable is followed silently (its uses
+			// are recorded under the same kind); every other copy is also reported
+			if !(isID && k == "wrapped") {
+				facts.other["alias:"+c03Expr(lhs)+":="+id.Name] = true
+			}
+			add(lhs, k, id.Name, true)
+		}
+		ast.Inspect(fn.Body, func(n ast.Node) bool {
+			switch x := n.(type) {
+			case *ast.AssignStmt:
+				if len(x.Rhs) == 1 && len(x.Lhs) > 1 {
+					if _, isCall := x.Rhs[0].(*ast.CallExpr); !isCall {
+						pair(x.Lhs[0], x.Rhs[0]) // comma-ok forms: `tc, ok := clientConn.(*net.TCPConn)`
+					}
+					if call, ok := x.Rhs[0].(*ast.CallExpr); ok {
+						if sel, ok := call.Fun.(*ast.SelectorExpr); ok {
+							if sel.Sel.Name == "WrapConnection" && len(x.Lhs) >= 2 {
+								add(x.Lhs[1], "wrapped", "WrapConnection", false)
+							}
+							if id, ok := sel.X.(*ast.Ident); ok && tracked[id.Name] == "client" && sel.Sel.Name == "File" {
+								add(x.Lhs[0], "fd", "File", false)
+							}
+						}
+					}
+					return true
+				}
+				for i, rhs := range x.Rhs {
+					if i >= len(x.Lhs) {
+						break
+					}
+					pair(x.Lhs[i], rhs)
+					if call, ok := rhs.(*ast.CallExpr); ok {
+						if sel, ok := call.Fun.(*ast.SelectorExpr); ok {
+							if id, ok := sel.X.(*ast.Ident); ok && tracked[id.Name] == "fd" && sel.Sel.Name == "Fd" {
+								add(x.Lhs[i], "fdptr", "Fd", false)
+							}
+						}
+					}
+				}
+			case *ast.ValueSpec:
+				for i, v := range x.Values {
+					if i < len(x.Names) {
+						pair(x.Names[i], v)
+					}
+				}
+			case *ast.RangeStmt:
+				if id, ok := c03Strip(x.X).(*ast.Ident); ok {
+					if _, ok := tracked[id.Name]; ok {
+						facts.other["ranged-over:"+id.Name] = true
+					}
+				}
+			}
+			return true
+		})
+	}
+	// ---- every occurrence
+	topIndex := func(stack []ast.Node) int {
+		for _, a := range stack {
+			if st, ok := a.(ast.Stmt); ok {
+				for i, s := range fn.Body.List {
+					if s == st {
+						return i
+					}
+				}
+			}
+		}
+		return -1
+	}
+	var stack []ast.Node
+	ast.Inspect(fn.Body, func(n ast.Node) bool {
+		if n == nil {
+			stack = stack[:len(stack)-1]
+			return true
+		}
+		stack = append(stack, n)
+		switch x := n.(type) {
+		case *ast.GoStmt:
+			facts.other["go-statement"] = true
+		case *ast.DeferStmt:
+			// a deferred call that is not a plain method call on a tracked variable
+			ok := false
+			if sel, isSel := x.Call.Fun.(*ast.SelectorExpr); isSel {
+				if id, isID := sel.X.(*ast.Ident); isID {
+					_, ok = tracked[id.Name]
+				}
+			}
+			if !ok {
+				facts.other["defer:"+c03Expr(x.Call.Fun)] = true
+			}
+		case *ast.Ident:
+			kind, ok := tracked[x.Name]
+			if !ok || len(stack) < 2 {
+				return true
+			}
+			if facts.methods[kind] == nil {
+				facts.methods[kind], facts.deferred[kind], facts.passed[kind] = map[string]bool{}, map[string]bool{}, map[string]bool{}
+			}
+			for _, a := range stack[:len(stack)-1] {
+				if _, isLit := a.(*ast.FuncLit); isLit {
+					facts.other["closure-capture:"+x.Name] = true
+				}
+			}
+			parent := stack[len(stack)-2]
+			var gp, ggp ast.Node
+			if len(stack) >= 3 {
+				gp = stack[len(stack)-3]
+			}
+			if len(stack) >= 4 {
+				ggp = stack[len(stack)-4]
+			}
+			switch p := parent.(type) {
+			case *ast.SelectorExpr:
+				if p.X != ast.Expr(x) {
+					return true // x is the selected name, not the operand (cannot happen for a variable)
+				}
+				if call, isCall := gp.(*ast.CallExpr); isCall && call.Fun == ast.Expr(p) {
+					if d, isDefer := ggp.(*ast.DeferStmt); isDefer && d.Call == call {
+						facts.deferred[kind][fmt.Sprintf("%s@%d", p.Sel.Name, topIndex(stack))] = true
+					} else if _, isGo := ggp.(*ast.GoStmt); isGo {
+						facts.other["go:"+x.Name+"."+p.Sel.Name] = true
+					} else {
+						facts.methods[kind][p.Sel.Name] = true
+					}
+				} else {
+					facts.other["method-value:"+x.Name+"."+p.Sel.Name] = true
+				}
+			case *ast.CallExpr:
+				if p.Fun == ast.Expr(x) {
+					facts.other["called:"+x.Name] = true
+					return true
+				}
+				for i, a := range p.Args {
+					if a == ast.Expr(x) {
+						fn := c03Expr(p.Fun)
+						if c03Conversions[fn] && len(p.Args) == 1 {
+							// a numeric conversion: what matters is where the converted value goes
+							if outer, isCall := gp.(*ast.CallExpr); isCall {
+								for k, oa := range outer.Args {
+									if oa == ast.Expr(p) {
+										facts.passed[kind][fmt.Sprintf("%s#%d", c03Expr(outer.Fun), k)] = true
+									}
+								}
+							} else {
+								facts.other[fmt.Sprintf("converted:%s(%s) in %T", fn, x.Name, gp)] = true
+							}
+						} else {
+							facts.passed[kind][fmt.Sprintf("%s#%d", fn, i)] = true
+						}
+					}
+				}
+			case *ast.AssignStmt:
+				// definitions / copies were handled above (aliases recorded there)
+			case *ast.ValueSpec:
+			case *ast.TypeAssertExpr:
+				facts.other["type-assertion:"+x.Name] = true
+			case *ast.UnaryExpr:
+				facts.other["unary"+p.Op.String()+":"+x.Name] = true
+			case *ast.StarExpr:
+				facts.other["deref:"+x.Name] = true
+			case *ast.CompositeLit, *ast.KeyValueExpr:
+				facts.other["composite-literal:"+x.Name] = true
+			case *ast.ReturnStmt:
+				facts.other["returned:"+x.Name] = true
+			case *ast.BinaryExpr:
+				facts.other["compared:"+x.Name] = true
+			case *ast.SendStmt:
+				facts.other["sent-on-channel:"+x.Name] = true
+			default:
+				facts.other[fmt.Sprintf("other-use:%s in %T", x.Name, parent)] = true
+			}
+		}
+		return true
+	})
+}
+
+// c03ParamOfType returns the name of fn's parameter whose type is written `typ`
+func c03ParamOfType(fn *ast.FuncDecl, typ string) string {
+	for _, f := range fn.Type.Params.List {
+		if c03Expr(f.Type) == typ && len(f.Names) == 1 {
+			return f.Names[0].Name
+		}
+	}
+	return ""
+}
+
+func c03Threshold(answer func(n int) error, max int) (firstNotTryAgain int) {
+	for n := 0; n <= max; n++ {
+		if err := answer(n); !errors.Is(err, transports.ErrTryAgain) {
+			return n
+		}
+	}
+	return -1
+}
+
 func TestVerifC03Gen(t *testing.T) {
 	fset := token.NewFileSet()
 	f, err := parser.ParseFile(fset, "conns.go", nil, 0)
 	if err != nil {
 		t.Fatal(err)
 	}
-	var fn *ast.FuncDecl
+	fns := map[string]*ast.FuncDecl{}
 	for _, d := range f.Decls {
-		if fd, ok := d.(*ast.FuncDecl); ok && fd.Name.Name == "handleNewTCPConn" {
-			fn = fd
+		if fd, ok := d.(*ast.FuncDecl); ok && fd.Body != nil {
+			fns[fd.Name.Name] = fd
 		}
 	}
-	if fn == nil || fn.Body == nil {
-		t.Fatal("handleNewTCPConn not found in conns.go")
+	tcp, nc := fns["handleNewTCPConn"], fns["handleNewConn"]
+	if tcp == nil || nc == nil {
+		t.Fatal("handleNewTCPConn / handleNewConn not found in conns.go")
 	}
-	tracked := map[string]string{"clientConn": "client", "wrapped": "wrapped", "wrappedConn": "wrapped"}
-	methods := map[string]map[string]bool{"client": {}, "wrapped": {}}
-	passed := map[string]map[string]bool{"client": {}, "wrapped": {}}
-	aliases := map[string]bool{}
-	ast.Inspect(fn.Body, func(n ast.Node) bool {
-		switch x := n.(type) {
-		case *ast.CallExpr:
-			if sel, ok := x.Fun.(*ast.SelectorExpr); ok {
-				if id, ok := sel.X.(*ast.Ident); ok {
-					if k, ok := tracked[id.Name]; ok {
-						methods[k][sel.Sel.Name] = true
-					}
+	tcpConn := c03ParamOfType(tcp, "net.Conn")
+	ncConn := c03ParamOfType(nc, "*net.TCPConn")
+	if tcpConn == "" || ncConn == "" {
+		t.Fatalf("connection parameter not found (handleNewTCPConn: %q, handleNewConn: %q)", tcpConn, ncConn)
+	}
+	ft := newC03Facts("client", "wrapped")
+	c03Analyse(tcp, map[string]string{tcpConn: "client"}, ft)
+	fc := newC03Facts("client", "fd", "fdptr")
+	c03Analyse(nc, map[string]string{ncConn: "client"}, fc)
+	// deferred calls on the connections inside handleNewTCPConn are "other uses" there
+	for k, m := range ft.deferred {
+		for d := range m {
+			ft.other["defer:"+k+"."+d] = true
+		}
+	}
+	// syscalls made directly by handleNewConn (the raw descriptor is in its hands)
+	sys := map[string]bool{}
+	ast.Inspect(nc.Body, func(n ast.Node) bool {
+		if call, ok := n.(*ast.CallExpr); ok {
+			if sel, ok := call.Fun.(*ast.SelectorExpr); ok {
+				if id, ok := sel.X.(*ast.Ident); ok && (id.Name == "syscall" || id.Name == "unix") {
+					sys[sel.Sel.Name] = true
 				}
 			}
-			for _, a := range x.Args {
-				if id, ok := a.(*ast.Ident); ok {
-					if k, ok := tracked[id.Name]; ok {
-						passed[k][c03Expr(x.Fun)] = true
-					}
-				}
-			}
-		case *ast.AssignStmt:
-			for i, rhs := range x.Rhs {
-				if id, ok := rhs.(*ast.Ident); ok {
-					if _, ok := tracked[id.Name]; ok && i < len(x.Lhs) {
-						lhs := c03Expr(x.Lhs[i])
-						if _, known := tracked[lhs]; !known {
-							aliases[lhs+":="+id.Name] = true
-						}
-					}
-				}
-			}
-		case *ast.GoStmt:
-			aliases["go-statement"] = true
 		}
 		return true
 	})
+
 	var sb strings.Builder
-	sb.WriteString("/-! GENERATED by /verif/go/harness/C03/zz_verif_c03_gen_test.go from cmd/application/conns.go (handleNewTCPConn). Do not edit. -/\n")
+	sb.WriteString("/-! GENERATED by /verif/go/harness/C03/zz_verif_c03_gen_test.go from cmd/application/conns.go (handleNewTCPConn, handleNewConn). Do not edit. -/\n")
 	sb.WriteString("namespace CJ.Gen.ConnCalls\n\n")
-	sb.WriteString("/-- methods invoked on `clientConn` -/\n" + c03LeanList("clientConnMethods", methods["client"]))
-	sb.WriteString("/-- functions `clientConn` is passed to -/\n" + c03LeanList("clientConnPassedTo", passed["client"]))
-	sb.WriteString("/-- methods invoked on the wrapped connection -/\n" + c03LeanList("wrappedMethods", methods["wrapped"]))
-	sb.WriteString("/-- functions the wrapped connection is passed to -/\n" + c03LeanList("wrappedPassedTo", passed["wrapped"]))
-	sb.WriteString("/-- other variables the connections are assigned to, goroutines started -/\n" + c03LeanList("aliases", aliases))
+	sb.WriteString("/-! ### handleNewTCPConn (connection parameter of type net.Conn, and every copy of it) -/\n")
+	sb.WriteString("/-- methods invoked on the client connection -/\n" + c03LeanList("clientConnMethods", ft.methods["client"]))
+	sb.WriteString("/-- functions the client connection is passed to, with the argument position -/\n" + c03LeanList("clientConnPassedTo", ft.passed["client"]))
+	sb.WriteString("/-- methods invoked on the wrapped connection (second result of WrapConnection, and every copy of it) -/\n" + c03LeanList("wrappedMethods", ft.methods["wrapped"]))
+	sb.WriteString("/-- functions the wrapped connection is passed to, with the argument position -/\n" + c03LeanList("wrappedPassedTo", ft.passed["wrapped"]))
+	sb.WriteString("/-- every other use of either connection: copies into other variables, type assertions, address-of, literals, closure captures, comparisons, defers, goroutines -/\n" + c03LeanList("aliases", ft.other))
+	sb.WriteString("\n/-! ### handleNewConn (connection parameter of type *net.TCPConn) -/\n")
+	sb.WriteString("/-- methods invoked on the connection, deferred calls excluded -/\n" + c03LeanList("newConnMethods", fc.methods["client"]))
+	sb.WriteString("/-- deferred method calls on the connection: Method@index of the top-level statement -/\n" + c03LeanList("newConnDeferred", fc.deferred["client"]))
+	sb.WriteString("/-- functions the connection is passed to, with the argument position -/\n" + c03LeanList("newConnPassedTo", fc.passed["client"]))
+	sb.WriteString("/-- methods invoked on the duplicated descriptor (`clientConn.File()`), deferred or not -/\n")
+	fdm := map[string]bool{}
+	for m := range fc.methods["fd"] {
+		fdm[m] = true
+	}
+	for m := range fc.deferred["fd"] {
+		fdm[strings.SplitN(m, "@", 2)[0]] = true
+	}
+	sb.WriteString(c03LeanList("newConnFdMethods", fdm))
+	fdp := map[string]bool{}
+	for _, k := range []string{"fd", "fdptr"} {
+		for m := range fc.passed[k] {
+			fdp[m] = true
+		}
+	}
+	sb.WriteString("/-- functions the descriptor (or its number) is passed to -/\n" + c03LeanList("newConnFdPassedTo", fdp))
+	sb.WriteString("/-- system calls made directly -/\n" + c03LeanList("newConnSyscalls", sys))
+	sb.WriteString("/-- every other use -/\n" + c03LeanList("newConnOther", fc.other))
 	sb.WriteString("\nend CJ.Gen.ConnCalls\n")
 	dir := os.Getenv("VERIF_OUT")
 	if dir == "" {
 		dir = os.TempDir()
 	}
 	if err := os.WriteFile(filepath.Join(dir, "ConnCalls.lean"), []byte(sb.String()), 0o644); err != nil {
+		t.Fatal(err)
+	}
+
+	// ---- (2) length constants, from the running code
+	w, err := newC34World("C03/gen", "")
+	if err != nil {
+		t.Fatal(err)
+	}
+	ip := net.ParseIP(c34PhNone)
+	junk := bytes.Repeat([]byte{0x5a}, 9000)
+	minT := c03Threshold(func(n int) error {
+		_, _, err := min.Transport{}.WrapConnection(bytes.NewBuffer(append([]byte(nil), junk[:n]...)), nil, ip, w.rm)
+		return err
+	}, 200)
+	obfsMax := c03Threshold(func(n int) error {
+		_, _, err := obfs4.Transport{}.WrapConnection(bytes.NewBuffer(append([]byte(nil), junk[:n]...)), nil, ip, w.rm)
+		return err
+	}, 9000)
+	if minT < 0 || obfsMax < 0 {
+		t.Fatalf("thresholds not observable: min %d, obfs4 %d", minT, obfsMax)
+	}
+	if obfsMax != obfs4.MaxHandshakeLength {
+		t.Fatalf("obfs4 gives up at %d bytes, MaxHandshakeLength is %d", obfsMax, obfs4.MaxHandshakeLength)
+	}
+	var cb strings.Builder
+	cb.WriteString("/-! GENERATED by /verif/go/harness/C03/zz_verif_c03_gen_test.go from pkg/transports/wrapping/{min,obfs4} (behaviour of the running code / exported constants). Do not edit. -/\n")
+	cb.WriteString("namespace CJ.Gen.WrapConsts\n\n")
+	fmt.Fprintf(&cb, "/-- shortest buffer on which the min transport stops answering try-again (`minTagLength`) -/\ndef minTagLen : Nat := %d\n", minT)
+	fmt.Fprintf(&cb, "/-- `obfs4.ClientMinHandshakeLength` -/\ndef obfs4ClientMinHandshake : Nat := %d\n", obfs4.ClientMinHandshakeLength)
+	fmt.Fprintf(&cb, "/-- `obfs4.MaxHandshakeLength` = shortest buffer on which obfs4, without a registration, stops answering try-again -/\ndef obfs4MaxHandshake : Nat := %d\n", obfsMax)
+	fmt.Fprintf(&cb, "/-- length of an obfs4 registration identifier in bytes (`ntor.PublicKeyLength + ntor.NodeIDLength`) -/\ndef obfs4IdentLen : Nat := %d\n", ntor.PublicKeyLength+ntor.NodeIDLength)
+	cb.WriteString("\nend CJ.Gen.WrapConsts\n")
+	if err := os.WriteFile(filepath.Join(dir, "WrapConsts.lean"), []byte(cb.String()), 0o644); err != nil {
 		t.Fatal(err)
 	}
 }
